@@ -117,10 +117,62 @@ Definition as_const_old : expr -> option value := as_const_gen false.
 
 (* codegen.rs::compile_expr as far as this property is concerned: one LoadConst when the folder
    answers, the run-time instructions of the node otherwise.  Total: nothing here can fail, which
-   is the model's form of "a failing constant expression never makes loading fail". *)
+   is the model's form of "a failing constant expression never makes loading fail".
+   Not modelled separately, because they add nothing to this decision: the Neg special case of
+   compile_expr (a Const operand that negates without error) is already covered by as_const
+   answering first for exactly those operands; the static keyword-argument collection of
+   compile_call_args (all values Const nodes: one LoadConst of the whole map instead of
+   BuildKwargs) builds the same map the VM would - it is exercised on the engine itself by the
+   check (literal vs hoisted keyword arguments, duplicate keywords included). *)
 Inductive compiled := CLoadConst (v : value) | CRuntime (e : expr).
 Definition compile_expr (e : expr) : compiled :=
   match as_const e with Some v => CLoadConst v | None => CRuntime e end.
+
+(* The same decision taken at every level, as compile_expr recurses into the operands of a node
+   it could not fold: [fold_sub e] is [e] with every maximal foldable sub-expression replaced by
+   the literal of its value ([reify]: what LoadConst pushes, written back as an expression). *)
+Definition reify_atom (v : value) : option expr :=
+  match v with
+  | VInt z => Some (EConst (LInt z))
+  | VStr false t => Some (EConst (LStr t))
+  | VBool b => Some (EConst (LBool b))
+  | VNone => Some (EConst LNone)
+  | _ => None
+  end.
+Fixpoint reify_atoms (vs : list value) : option (list expr) :=
+  match vs with
+  | [] => Some []
+  | v :: r => match reify_atom v, reify_atoms r with Some a, Some l => Some (a :: l) | _, _ => None end
+  end.
+Definition reify (v : value) : option expr :=
+  match v with
+  | VList vs => omap EList (reify_atoms vs)
+  | _ => reify_atom v
+  end.
+
+Definition descend (f : expr -> expr) (e : expr) : expr :=
+  match e with
+  | EConst _ | EVar _ => e
+  | EList items => EList (map f items)
+  | ENeg a => ENeg (f a)
+  | ENot a => ENot (f a)
+  | EBin op a b => EBin op (f a) (f b)
+  | ECmp a rest => ECmp (f a) (map (fun p => (fst p, f (snd p))) rest)
+  | EAnd a b => EAnd (f a) (f b)
+  | EOr a b => EOr (f a) (f b)
+  | EIf c t e' => EIf (f c) (f t) (match e' with Some x => Some (f x) | None => None end)
+  | EItem a i => EItem (f a) (f i)
+  | EAttr a x => EAttr (f a) x
+  | EFilter n a args => EFilter n (f a) (map f args)
+  | ETest n a args ng => ETest n (f a) (map f args) ng
+  | ECall n args kwargs => ECall n (map f args) (map (fun p => (fst p, f (snd p))) kwargs)
+  end.
+
+Fixpoint fold_sub (e : expr) {struct e} : expr :=
+  match obind (as_const e) reify with
+  | Some k => k
+  | None => descend fold_sub e
+  end.
 
 (* what running the compiled expression yields, with the reference evaluator for run-time code *)
 Definition run_compiled (c : cfg) (fuel : nat) (esc : bool) (s : st) (k : compiled) : outcome (value * st) :=
